@@ -188,9 +188,14 @@ func ReplayStorage(cs *StCase, target string, profile int, scratch string) (f *r
 				err = commit(key)
 			case "vec":
 				third := len(content) / 3
-				if k%2 == 1 {
+				switch (k + profile) % 4 {
+				case 0: // the whole content as ONE blob (a store may be tempted to keep it as it is)
+					err = storage.PutVec(ctx, st, key, [][]byte{content})
+				case 1:
 					err = storage.PutVec(ctx, st, key, [][]byte{content[:third], content[third : 2*third], content[2*third:]})
-				} else {
+				case 2: // empty blobs in front, in the middle and at the end
+					err = storage.PutVec(ctx, st, key, [][]byte{{}, content[:third], nil, content[third:], {}})
+				default:
 					// the blobs share one backing array but do not lie in it in the order they are given: A | C | B in
 					// memory, handed over as A, B, C (a store that joins them in place must not clobber what it has not read)
 					a, bb, c := content[:third], content[third:2*third], content[2*third:]
